@@ -342,7 +342,8 @@ def refine(hyps, goal, timeout_ms=8000, seed=0, rounds=12, max_inst=6000, budget
             if all(srt == V for srt in sorts):
                 qs.append(q)
                 continue
-            qs.append(q)     # Int-sorted variables are instantiated over Int ground terms too
+            qs.append(q)     # Int-sorted variables are instantiated over the Int ground terms only: a model found this
+            exact = False    # way may still violate the hypothesis at an index that is not a ground term (finite scope)
             continue
         exact = False
     neg = z3.Not(goal)
@@ -451,9 +452,10 @@ def prove(hyps, goal, timeout_ms=10000, seed=0, use_cvc5=True, both=False, quick
         return out
     r2 = refine(hyps, goal, seed=seed, budget_s=max(10, timeout_ms / 400))
     SOLVER_STATS['z3_s'] += r2['time_s']
-    if r2['status'] in ('proved', 'refuted'):
+    if r2['status'] == 'proved' or (r2['status'] == 'refuted' and r2.get('exact')):
         r2['time_s'] = round(time.time() - t0, 4)
         return r2
+    finite_scope = r2 if r2['status'] == 'refuted' else None     # confirm with the complete procedures before reporting it
     if use_cvc5 and os.path.exists(CVC5):
         r3 = run_cvc5(s.to_smt2().replace('(check-sat)', ''), max(10, timeout_ms // 500))
         if r3 == 'unsat':
@@ -478,6 +480,10 @@ def prove(hyps, goal, timeout_ms=10000, seed=0, use_cvc5=True, both=False, quick
         out['status'] = 'refuted'
         out['model'] = s2.model()
         out['exact'] = True
+    elif finite_scope is not None:
+        finite_scope['time_s'] = out['time_s']
+        finite_scope['note'] = 'finite-scope counter-model (quantified hypotheses instantiated over the ground terms of the query); cvc5 and z3/MBQI did not decide'
+        return finite_scope
     else:
         out['status'] = 'undecided'
         out['reason'] = s2.reason_unknown()
